@@ -38,6 +38,16 @@ func c20Check(c *fw.Ctx, pts [][2]float64, stride int, thr float64, class string
 		}
 	}
 	negZeros(r, flat, stride)
+	if r.Chance(1, 16) {
+		// an array that ends in a partial coordinate: the whole coordinates in it
+		// are the sequence, and the property is judged on those
+		for k := r.Range(1, stride-1); k > 0; k-- {
+			flat = append(flat, []float64{100, -100, 1e6, gen.Float(r, gen.AnyClass(r))}[r.Intn(4)])
+		}
+		c.Count("array_ending_in_a_partial_coordinate")
+		c20CheckFlat(c, pts, flat, stride, thr, class, "")
+		return
+	}
 	if !c20CheckFlat(c, pts, flat, stride, thr, class, "") || n < 2 || !r.Chance(1, 3) {
 		return
 	}
